@@ -15,6 +15,7 @@ import (
 	"os"
 	"path/filepath"
 	"strings"
+	"time"
 
 	"github.com/restic/restic/internal/backend"
 )
@@ -41,6 +42,11 @@ func c14ShortIDs(js string) []string {
 }
 
 func engineC14(c *vctx) error {
+	// never hang the check (a broken writer may never return)
+	time.AfterFunc(time.Duration(c.n(8, 40))*time.Minute, func() {
+		fmt.Fprintln(os.Stderr, "C14 engine watchdog: a backup or reader did not return")
+		os.Exit(3)
+	})
 	c.Header("Model.C14m", "C14m.case", "C14m.check_case")
 	c.Preamble("Import C14m.")
 	e := newVenv(c, "repo")
@@ -182,6 +188,14 @@ func engineC14(c *vctx) error {
 		w.rec.OnOp = nil
 		if err != nil {
 			return fmt.Errorf("C14: paused backup failed: %v", err)
+		}
+		// and once more after the snapshot is visible
+		for _, cmd := range [][]string{{"--no-lock", "check"}, {"ls", "latest"}, {"--no-lock", "restore", "latest", "--target", tgt, "--verify"}} {
+			_ = os.RemoveAll(tgt)
+			if _, se, err := e.cli(cmd...); err != nil {
+				fails++
+				fmsg = append(fmsg, fmt.Sprintf("%v after the backup: %v %s", cmd, err, strings.TrimSpace(se)))
+			}
 		}
 		var tr []string
 		for _, o := range w.rec.Mods() {
